@@ -1,0 +1,203 @@
+//! Read-only hooks for external verification harnesses. Only compiled with the `verif-hooks`
+//! feature; nothing in here changes the behaviour of the crate.
+
+use alloc::string::String;
+use alloc::vec::Vec;
+use core::cell::Cell;
+
+use crate::analyze::{analyze, Info};
+use crate::{wrap_tree, Expr, Result};
+
+/// Statistics of the most recent `vm::run` on the current thread.
+#[derive(Clone, Copy, Debug, Default, PartialEq, Eq)]
+pub struct RunStats {
+    /// Number of `vm::run` invocations since the last reset
+    pub runs: u64,
+    /// Backtracks taken (branches popped because the current thread failed)
+    pub backtracks: u64,
+    /// Branches pushed
+    pub pushes: u64,
+    /// Peak depth of the branch stack
+    pub max_stack: u64,
+    /// Instructions dispatched
+    pub insns: u64,
+}
+
+std::thread_local! {
+    static STATS: Cell<RunStats> = Cell::new(RunStats {
+        runs: 0, backtracks: 0, pushes: 0, max_stack: 0, insns: 0,
+    });
+}
+
+/// Statistics of the most recent VM run on this thread (all zero if none happened since reset).
+pub fn last_run_stats() -> RunStats {
+    STATS.with(|s| s.get())
+}
+
+/// Reset the statistics of this thread.
+pub fn reset_run_stats() {
+    STATS.with(|s| s.set(RunStats::default()));
+}
+
+pub(crate) fn vh_begin_run() {
+    STATS.with(|s| {
+        let runs = s.get().runs;
+        s.set(RunStats {
+            runs: runs + 1,
+            ..RunStats::default()
+        })
+    });
+}
+
+pub(crate) fn vh_insn(stack_len: usize) {
+    STATS.with(|s| {
+        let mut v = s.get();
+        v.insns += 1;
+        if stack_len as u64 > v.max_stack {
+            v.max_stack = stack_len as u64;
+        }
+        s.set(v);
+    });
+}
+
+pub(crate) fn vh_push() {
+    STATS.with(|s| {
+        let mut v = s.get();
+        v.pushes += 1;
+        s.set(v);
+    });
+}
+
+pub(crate) fn vh_backtrack() {
+    STATS.with(|s| {
+        let mut v = s.get();
+        v.backtracks += 1;
+        s.set(v);
+    });
+}
+
+/// Owned copy of the analysis result of one sub-expression.
+#[derive(Clone, Debug, PartialEq, Eq)]
+pub struct Facts {
+    /// Variant name of the expression node
+    pub kind: &'static str,
+    /// Minimum number of characters the node is judged to match
+    pub min_size: usize,
+    /// Whether the node is judged to always match the same number of characters
+    pub const_size: bool,
+    /// Whether the node needs the backtracking VM
+    pub hard: bool,
+    /// First group index inside the node
+    pub start_group: usize,
+    /// One past the last group index inside the node
+    pub end_group: usize,
+    /// `Debug` rendering of the expression (for messages)
+    pub expr: String,
+    /// Facts of the children, in the order of the expression's children
+    pub children: Vec<Facts>,
+}
+
+fn kind_of(e: &Expr) -> &'static str {
+    match e {
+        Expr::Empty => "Empty",
+        Expr::Any { .. } => "Any",
+        Expr::Assertion(_) => "Assertion",
+        Expr::Literal { .. } => "Literal",
+        Expr::Concat(_) => "Concat",
+        Expr::Alt(_) => "Alt",
+        Expr::Group(_) => "Group",
+        Expr::LookAround(..) => "LookAround",
+        Expr::Repeat { .. } => "Repeat",
+        Expr::Delegate { .. } => "Delegate",
+        Expr::Backref(_) => "Backref",
+        Expr::AtomicGroup(_) => "AtomicGroup",
+        Expr::KeepOut => "KeepOut",
+        Expr::ContinueFromPreviousMatchEnd => "ContinueFromPreviousMatchEnd",
+        Expr::BackrefExistsCondition(_) => "BackrefExistsCondition",
+        Expr::Conditional { .. } => "Conditional",
+        Expr::SubroutineCall(_) => "SubroutineCall",
+    }
+}
+
+fn copy_info(info: &Info<'_>, with_expr: bool) -> Facts {
+    Facts {
+        kind: kind_of(info.expr),
+        min_size: info.min_size,
+        const_size: info.const_size,
+        hard: info.hard,
+        start_group: info.start_group,
+        end_group: info.end_group,
+        expr: if with_expr {
+            alloc::format!("{:?}", info.expr)
+        } else {
+            String::new()
+        },
+        children: info
+            .children
+            .iter()
+            .map(|c| copy_info(c, with_expr))
+            .collect(),
+    }
+}
+
+/// Parse `pattern`, wrap it exactly as `Regex::new` does and return the analysis facts of the
+/// user's expression (the node inside the implicit group 0).
+pub fn analysis(pattern: &str, with_expr: bool) -> Result<Facts> {
+    let raw_tree = Expr::parse_tree(pattern)?;
+    let tree = wrap_tree(raw_tree);
+    let info = analyze(&tree)?;
+    Ok(copy_info(&info.children[1].children[0], with_expr))
+}
+
+/// Thin wrapper over the VM's private backtracking state, so that operation sequences can be
+/// driven from outside.
+pub struct VmState(crate::vm::VhState);
+
+impl core::fmt::Debug for VmState {
+    fn fmt(&self, f: &mut core::fmt::Formatter<'_>) -> core::fmt::Result {
+        f.write_str("<VmState>")
+    }
+}
+
+impl VmState {
+    /// New state with `n_saves` slots, all unset (`usize::MAX`).
+    pub fn new(n_saves: usize, max_stack: usize) -> VmState {
+        VmState(crate::vm::VhState::vh_new(n_saves, max_stack))
+    }
+    /// Create a backtrack branch.
+    pub fn push(&mut self, pc: usize, ix: usize) -> Result<()> {
+        self.0.vh_push(pc, ix)
+    }
+    /// Abandon the current alternative: restore the most recent branch.
+    pub fn pop(&mut self) -> (usize, usize) {
+        self.0.vh_pop()
+    }
+    /// Write a slot.
+    pub fn save(&mut self, slot: usize, val: usize) {
+        self.0.vh_save(slot, val)
+    }
+    /// Read a slot.
+    pub fn get(&self, slot: usize) -> usize {
+        self.0.vh_get(slot)
+    }
+    /// Number of slots currently allocated (including explicit-stack cells).
+    pub fn n_slots(&self) -> usize {
+        self.0.vh_n_slots()
+    }
+    /// Push onto the explicit (auxiliary) stack.
+    pub fn stack_push(&mut self, val: usize) {
+        self.0.vh_stack_push(val)
+    }
+    /// Pop from the explicit (auxiliary) stack.
+    pub fn stack_pop(&mut self) -> usize {
+        self.0.vh_stack_pop()
+    }
+    /// Number of backtrack branches.
+    pub fn backtrack_count(&self) -> usize {
+        self.0.vh_backtrack_count()
+    }
+    /// Discard the branches created since `count` was read.
+    pub fn backtrack_cut(&mut self, count: usize) {
+        self.0.vh_backtrack_cut(count)
+    }
+}
